@@ -52,7 +52,11 @@ def warm(tier):
     for cache in (None, new_log_likelihood_cache(2, 2, 2), arraymap.new(4, 2, initial_size=2, max_size=8)):
         mutation.base_step(g.copy(), inst.reads, llk, 0, 0, 2, inst.luh, 0.1, 0.5, inst.counts, cache)
         structural.interval_step(g.copy(), inst.reads, llk, inst.luh, 0.1, np.array([0, 1]), 0, 0.5, inst.counts, cache)
-    DenovoMCMC(ploidy=2, n_alleles=[2, 2], steps=5, random_seed=1, temperatures=(0.5, 1.0), llk_cache_threshold=0).fit(inst.reads, inst.counts)
+    for thr in (-1, 0):
+        DenovoMCMC(ploidy=2, n_alleles=[2, 2], steps=5, random_seed=1, temperatures=(0.5, 1.0), llk_cache_threshold=thr, fix_homozygous=2.0, inbreeding=0.1).fit(inst.reads, inst.counts)
+        _denovo_assembler(genotype=g.copy(), inbreeding=0.1, reads=inst.reads, read_counts=inst.counts, n_alleles=np.array([2, 2], np.int8), steps=3,
+                          break_dist=np.array([0.5, 0.5]), recombination_step_probability=0.5, partial_dosage_step_probability=0.5,
+                          dosage_step_probability=1.0, temperatures=np.array((0.5, 1.0)), return_heated_trace=True, llk_cache_threshold=thr)
     ped = Pedigree("trio")
     st = next(iter(ped.states()))
     G = ped.genotype_array(st)
@@ -60,7 +64,12 @@ def warm(tier):
     a = common_args(ped, ch)
     pm.gibbs_probabilities(2, 0, G, *a, ped.new_cache(), *ped.scratch())
     pm.metropolis_hastings_probabilities(2, 0, G, *a, ped.new_cache(), *ped.scratch())
-    from mchap.calling.mcmc import mcmc_sampler  # noqa
+    from mchap.calling.classes import CallingMCMC
+    from ..kcall import CallInstance
+
+    ci = CallInstance(3, 2, "skew", 0.1, 0)
+    for stype in ("Gibbs", "Metropolis-Hastings"):
+        CallingMCMC(ploidy=2, haplotypes=ci.haps, frequencies=ci.farr, inbreeding=0.1, steps=3, chains=1, random_seed=1, step_type=stype).fit(ci.R, ci.C)
 
 
 def plan(tier, seed):
@@ -432,8 +441,6 @@ def job_denovo(job):
 def job_call(job):
     import numba
     from mchap.calling.likelihood import log_likelihood_alleles_cached
-    from mchap.calling.mcmc import mcmc_sampler
-    from mchap.jitutils import seed_numba
     from ..kcall import CallInstance
 
     _, seed, _ = job
@@ -458,22 +465,27 @@ def job_call(job):
                         break
                 r.states += 1
         r.nontrivial += 1
-        for st in (0, 1):
-            seed_numba(23 + seed)
-            gt, lt = mcmc_sampler(np.array(gens[len(gens) // 2]), inst.haps, inst.R, inst.C, 0.1, inst.farr, 200, True, st)
-            seed_numba(23 + seed)
-            gt2, lt2 = mcmc_sampler(np.array(gens[len(gens) // 2]), inst.haps, inst.R, inst.C, 0.1, inst.farr, 200, False, st)
-            # (not part of the property for call: the cached value may differ from a fresh one by float summation order,
-            #  so only the recorded likelihoods are compared, with tolerance)
-            if gt.shape != gt2.shape:
-                r.violation("call-cache-shape|H=%d|P=%d|type=%d" % (H, P, st), "trace shapes differ", payload)
-            for i in range(len(gt)):
-                want = inst.llk(tuple(int(x) for x in gt[i]))
-                r.traces += 1
-                if abs(lt[i] - want) > 1e-9 * max(1, abs(want)):
-                    r.violation("call-trace-llk|H=%d|P=%d|type=%d" % (H, P, st), "step %d llk %.12g, recomputed %.12g" % (i, lt[i], want), payload)
-                    break
         r.outcome((H, P))
+        # one model object fitted to sample A and then to sample B must give B's own trace and likelihoods
+        from mchap.calling.classes import CallingMCMC
+
+        instB = CallInstance(H, P, "skew", 0.1, seed, read_variant=1)
+        for stype in ("Gibbs", "Metropolis-Hastings"):
+            fresh = CallingMCMC(ploidy=P, haplotypes=inst.haps, frequencies=inst.farr, inbreeding=0.1, steps=80, chains=2, random_seed=5, step_type=stype).fit(instB.R, instB.C)
+            model = CallingMCMC(ploidy=P, haplotypes=inst.haps, frequencies=inst.farr, inbreeding=0.1, steps=80, chains=2, random_seed=5, step_type=stype)
+            model.fit(inst.R, inst.C)
+            again = model.fit(instB.R, instB.C)
+            r.evaluations += 1
+            r.transitions += 2
+            if not np.array_equal(fresh.genotypes, again.genotypes):
+                r.violation("call-model-reuse|H=%d|P=%d|%s" % (H, P, stype), "fit(B) after fit(A) on the same model object differs from fit(B) on a fresh model", payload)
+            for c in range(again.genotypes.shape[0]):
+                for i in range(again.genotypes.shape[1]):
+                    want = instB.llk(tuple(int(x) for x in again.genotypes[c, i]))
+                    r.traces += 1
+                    if abs(again.llks[c, i] - want) > 1e-9 * max(1, abs(want)):
+                        r.violation("call-model-reuse-llk|H=%d|P=%d|%s" % (H, P, stype), "after refitting, step %d carries llk %.12g; sample B's own reads give %.12g" % (i, again.llks[c, i], want), payload)
+                        break
     r.sample({"call_cache": True, "instances": [(3, 2), (3, 3), (4, 3), (4, 4), (5, 2)]}, cap=1)
     return r
 
